@@ -9,6 +9,7 @@ import Hgxv.Proofs.C11Cut
 import Hgxv.Proofs.C11DirCensus
 import Hgxv.Proofs.C11Stats
 import Hgxv.Proofs.C11Total
+import Hgxv.Proofs.C11EnumRelabel
 /-! # C11 - motif census equals exhaustive enumeration and is relabelling-invariant
 
 Property theorems about the models `Hgxv/Model/C11Tables.lean` (pattern tables of
@@ -432,3 +433,106 @@ theorem C11_dir_diff_sum {K : Type} [DecidableEq K] (obs : List (K × Nat)) (nul
 example : diffSum [4, 1, 0] [[2, 1, 3], [2, 1, 5]] = some [1/5, 0, -1/2] := by decide +kernel
 example : normVector 5 [3, -4, 0] = [3/5, -4/5, 0] ∧ (5 : Rat) * 5 = sumSq [3, -4, 0] := by decide +kernel
 example : dDiffSum [(7, 4), (9, 2)] [[(7, 2)], [(7, 2), (8, 1)]] = [1/5, 1/3] := by decide +kernel
+
+/-! ## second extension round: the undirected census as an enumeration
+
+`countedPats n E` (`Model/C11Enum.lean`): every node set classified by `_motifs_ho_full`, then (order 4) by
+`_motifs_ho_not_full` with the `visited` dict of the first pass, then by `_motifs_standard` (ESU on the pairwise
+links) with the `visited` dict of both, each with the labelled pattern that pass hands to the class table (computed
+from the pass's own table `T`); `counted n E` = the node sets alone.  `countedWith n E inc g rts` is the same loop
+with the incidence lists `graph[x]` of the not-full pass (`inc`), the adjacency lists `graph[w]` (`g`) and the key
+order `graph.keys()` (`rts`) of the ESU pass as parameters.  `WF E` as above; `n ∈ {3, 4}`. -/
+
+/-- each connected `n`-set is classified exactly once across the passes, and nothing else is: `counted n E` is
+duplicate-free and lists exactly the strictly increasing `n`-lists `S` with `Conn E S` (any two nodes of `S` joined
+by a chain of hyperedges lying inside `S`) -/
+theorem C11_counted_sets (n : Nat) (hn : n = 3 ∨ n = 4) (E : HG) (hE : WF E) :
+    (counted n E).Nodup ∧ ∀ S, S ∈ counted n E ↔ SSorted S ∧ S.length = n ∧ Conn E S :=
+  ⟨counted_nodup hn hE, fun _ => mem_counted hn hE⟩
+
+/-- the enumeration does not depend on the insertion order of the hyperedges: the same node sets are classified,
+each once (possibly visited in another order) -/
+theorem C11_counted_insertion_order (n : Nat) (hn : n = 3 ∨ n = 4) (E E' : HG) (hE : WF E) (hperm : E.Perm E') :
+    (counted n E').Perm (counted n E) :=
+  counted_perm hn hE hperm
+
+/-- ... nor on the order of the incidence lists: whatever lists `graph[x]` (not-full pass: the hyperedges with
+fewer than `n` nodes that contain `x`, in any order, repetitions allowed), `graph[w]` (ESU pass: the pair-neighbours
+of `w`, each once, in any order - this also varies the order in which `ext` is filled and popped) and whatever key
+order `graph.keys()` (the nodes that lie in a pair, each once) the passes run with, the same (node set, pattern)
+pairs are produced, each once, up to order -/
+theorem C11_counted_incidence_order (n : Nat) (hn : n = 3 ∨ n = 4) (E : HG)
+    (inc : Nat → HG) (g : Nat → List Nat) (rts : List Nat)
+    (hinc : ∀ x e, e ∈ inc x ↔ e ∈ E ∧ e.length < n ∧ x ∈ e)
+    (hg : ∀ w, (g w).Nodup ∧ ∀ u, u ∈ g w ↔ ∃ e ∈ E, e.length = 2 ∧ w ∈ e ∧ u ∈ e ∧ u ≠ w)
+    (hr : rts.Nodup ∧ ∀ v, v ∈ rts ↔ ∃ e ∈ E, e.length = 2 ∧ v ∈ e) :
+    (countedWith n E inc g rts).Perm (countedPats n E) :=
+  countedWith_perm' (by rcases hn with h | h <;> omega) E hinc hg hr
+
+/-- the pattern a pass hands to the class table is the induced sub-hypergraph with nodes replaced by ranks: for
+every produced pair `(S, p)`, `S` is a classified set and `p` - computed from the pass's own table (`T` without the
+hyperedges of size `n` in the not-full pass, pairs only in the ESU pass) - equals `inducedMask n E S`, whose bit `i`
+says whether the `i`-th rank set of `generate_motifs`' list `A`, read through the sorted list `S`, is a hyperedge
+of `E` -/
+theorem C11_pattern_induced (n : Nat) (hn : n = 3 ∨ n = 4) (E : HG) (hE : WF E) (sp : List Nat × Nat)
+    (h : sp ∈ countedPats n E) :
+    sp.1 ∈ counted n E ∧ sp.2 = pattern n E sp.1 ∧ sp.2 = inducedMask n E sp.1 := by
+  obtain ⟨h1, h2⟩ := countedPats_pattern hn hE h
+  refine ⟨h1, h2, ?_⟩
+  rw [h2]; exact pattern_induced E ((mem_counted hn hE).mp h1).2.1
+
+/-- `compute_motifs(h, n, 0)['observed']` is the tally of the enumeration: for every class `c`, in `generate_motifs`
+order, the count is the number of produced (node set, pattern) pairs whose pattern is a relabelling of `c`
+(`isRelabelOf n c p` ↔ `∃ t ∈ tbls n, applyPerm t c = p`); the per-class `max` over the three passes loses nothing -/
+theorem C11_census_counted (n : Nat) (hn : n = 3 ∨ n = 4) (E : HG) (hE : WF E) :
+    census n E = (classes n).map fun c =>
+      (c, ((countedPats n E).filter fun sp => isRelabelOf n c sp.2).length) :=
+  census_counted hn hE
+
+/-- relabelling: the enumeration of the relabelled hypergraph is the image of the enumeration (`relabelSet π S` =
+sorted image of `S`), up to visiting order; together with `C11_pattern_induced`, `C11_census_counted` and the table
+theorems this is the route by which `C11_relabel_invariant` (census of a relabelled hypergraph = census) holds -/
+theorem C11_counted_relabel (n : Nat) (hn : n = 3 ∨ n = 4) (E : HG) (hE : WF E) (π : Nat → Nat)
+    (hπ : ∀ a b, π a = π b → a = b) :
+    (counted n (relabelHG π E)).Perm ((counted n E).map (relabelSet π)) :=
+  counted_relabel hπ hn hE
+
+/-- non-vacuity, order 3 (the example hypergraph of `C11_census`): the full pass classifies `{0,1,2}` (pattern 11 =
+the hyperedge and the pairs `01`, `12`), the ESU pass `{0,1,3}` and `{1,2,3}`; `{0,2,3}` is not connected -/
+example : countedPats 3 [[0,1],[1,2],[0,1,2],[2,3],[1,3]] = [([0,1,2], 11), ([0,1,3], 10), ([1,2,3], 14)] := by
+  have h : stdSets 3 [[0,1],[1,2],[0,1,2],[2,3],[1,3]] [[0,1,2]] = [[0, 1, 3], [1, 2, 3]] := by
+    simp [stdSets, esuSets, roots, nbrs, dyadic, dedup, extend, newExcl, isort, insertSorted]
+  have hu : upTo 3 [[0,1],[1,2],[0,1,2],[2,3],[1,3]] = [[0,1],[1,2],[0,1,2],[2,3],[1,3]] := by decide
+  have hf : fullSets 3 [[0,1],[1,2],[0,1,2],[2,3],[1,3]] = [[0,1,2]] := by decide
+  have h2 : sets2 3 [[0,1],[1,2],[0,1,2],[2,3],[1,3]] = [] := rfl
+  rw [countedPats_eq, hu]
+  unfold sets3
+  rw [h2, hf, List.nil_append, h]
+  decide
+example : inducedMask 3 [[0,1],[1,2],[0,1,2],[2,3],[1,3]] [0,1,3] = 10 ∧
+    hyperedges 3 = [[0,1,2],[0,1],[0,2],[1,2]] := by decide
+
+/-- non-vacuity, order 4, all three passes contribute: `{3,4,5,6}` is a hyperedge (and also a path of pairs: the
+ESU pass reaches it and skips it as visited), `{0,1,2,3}` is a 3-node hyperedge plus an attached pair, `{2,3,4,5}`
+is a path of pairs -/
+example : WF [[0,1,2],[2,3],[3,4],[4,5],[5,6],[3,4,5,6]] := ⟨by decide, by decide⟩
+example : countedPats 4 [[0,1,2],[2,3],[3,4],[4,5],[5,6],[3,4,5,6]]
+    = [([3,4,5,6], 1313), ([0,1,2,3], 1026), ([2,3,4,5], 1312)] := by
+  have hu : upTo 4 [[0,1,2],[2,3],[3,4],[4,5],[5,6],[3,4,5,6]] = [[0,1,2],[2,3],[3,4],[4,5],[5,6],[3,4,5,6]] := by
+    decide
+  have hf : fullSets 4 [[0,1,2],[2,3],[3,4],[4,5],[5,6],[3,4,5,6]] = [[3,4,5,6]] := by decide
+  have h2 : sets2 4 [[0,1,2],[2,3],[3,4],[4,5],[5,6],[3,4,5,6]] = [[0,1,2,3]] := by decide
+  have h : stdSets 4 [[0,1,2],[2,3],[3,4],[4,5],[5,6],[3,4,5,6]] [[0,1,2,3],[3,4,5,6]] = [[2,3,4,5]] := by
+    simp [stdSets, esuSets, roots, nbrs, dyadic, dedup, extend, newExcl, isort, insertSorted]
+  rw [countedPats_eq, hu]
+  unfold sets3
+  rw [h2, hf, List.cons_append, List.nil_append, h]
+  decide
+
+/-- non-vacuity of the order hypotheses: reversed adjacency lists and reversed key order visit the same sets in
+another order -/
+example : (countedWith 3 [[0,1],[1,2],[0,1,2],[2,3],[1,3]] (fun _ => [])
+    (fun w => (nbrs [[0,1],[1,2],[0,1,2],[2,3],[1,3]] w).reverse) [3,2,1,0]).map (·.1)
+      = [[0,1,2],[1,2,3],[0,1,3]] := by
+  simp [countedWith, withPat, esuSetsWith, upTo, fullSets, nbrs, dyadic, dedup, extend, newExcl, isort,
+    insertSorted]
